@@ -28,14 +28,14 @@ REQUIRED = {
               "groups/range_len_2": 20, "groups/range_len>=3": 100, "groups/count": 100, "groups/count_0": 5,
               "groups/invalid_refused": 30, "groups/count_inherited_from_listed_group": 20, "access/checked_agents": 500, "random/values": 100000,
               "random/malformed_refused": 200, "class/builtin_resolved": 200, "class/user_resolved": 30,
-              "class/clash_refused": 30, "class/unknown_refused": 30, "legacy/pairs_compared": 100,
+              "class/clash_refused": 30, "class/unknown_refused": 30, "class/names_containing_one_another_resolved": 300, "legacy/pairs_compared": 100,
               "legacy/both_spellings_refused": 20, "legacy/same_legacy_key_in_two_sessions_of_one_list": 30},
     "thorough": {"extends/ok": 21000, "extends/cycle_refused": 2400, "extends/missing_parent_refused": 2400,
                  "extends/depth>=3": 4500, "extends/excluded_key_in_parent": 4500, "groups/range_len_1": 500,
                  "groups/range_len_2": 500, "groups/range_len>=3": 3000, "groups/count": 3000, "groups/count_0": 150,
                  "groups/invalid_refused": 900, "groups/count_inherited_from_listed_group": 600, "access/checked_agents": 15000, "random/values": 3000000,
                  "random/malformed_refused": 6000, "class/builtin_resolved": 6000, "class/user_resolved": 900,
-                 "class/clash_refused": 900, "class/unknown_refused": 900, "legacy/pairs_compared": 3000,
+                 "class/clash_refused": 900, "class/unknown_refused": 900, "class/names_containing_one_another_resolved": 9000, "legacy/pairs_compared": 3000,
                  "legacy/both_spellings_refused": 600, "legacy/same_legacy_key_in_two_sessions_of_one_list": 900},
 }
 KINDS = ["extends", "extends", "extends", "extends", "groups", "groups", "random", "class", "legacy", "extends"]
@@ -552,6 +552,24 @@ def run_class(case, res):
                 res.violation("class", "class-name-resolved-to-a-different-class", {"name": name, "with_user_classes": True})
         except Exception as e:  # noqa
             res.violation("class", "built-in-class-name-not-resolved", {"name": name, "exc": repr(e), "with_user_classes": True})
+    # user classes whose names CONTAIN a built-in name (TrendFCNAgent beside FCNAgent) or each other's name (UnLitMarket
+    # beside LitMarket): every name still resolves to exactly the class of that name
+    for name in case["names"][:3]:
+        exp = where_defined(name)
+        rel = [type("Trend" + name, (), {}), type(name + "2", (), {}), type("My" + name + "Plus", (), {})]
+        for want, cls_ in [(name, exp)] + [(r.__name__, r) for r in rel]:
+            try:
+                got = find_class(want, optional_class_list=list(rel))
+            except Exception as e:  # noqa
+                res.violation("class", "built-in-class-name-not-resolved" if cls_ is exp else "registered-user-class-not-resolved",
+                              {"name": want, "exc": repr(e), "registered_beside": [r.__name__ for r in rel]})
+                break
+            if got is not cls_:
+                res.violation("class", "class-name-resolved-to-a-different-class",
+                              {"name": want, "got": repr(got), "registered_beside": [r.__name__ for r in rel]})
+                break
+        else:
+            res.count("class/names_containing_one_another_resolved")
     users = [type(n, (), {}) for n in case["user"]]
     for u in users:
         if len({x.__name__ for x in users}) < len(users):
